@@ -62,19 +62,31 @@ def insertChan (c : Chan) : List Chan → List Chan
 /-- sorted list without duplicates: the canonical form of a `frozenset` of channel names -/
 def sortChans (cs : List Chan) : List Chan := cs.foldr insertChan []
 
-/-! ## Dictionaries `channel ↦ α` as association lists with unique keys, kept sorted by key -/
+/-! ## Dictionaries `channel ↦ α` as association lists
+
+`dinsert` is `d[c] = v` of a Python dict (replace, else append: insertion order); `dnorm` is the
+canonical sorted form used for the dict- and set-valued *slots* that `__eq__` compares. -/
 
 def dinsert {α} (c : Chan) (v : α) : List (Chan × α) → List (Chan × α)
   | [] => [(c, v)]
-  | (k, x) :: xs => if c < k then (c, v) :: (k, x) :: xs else if c = k then (k, v) :: xs
-                    else (k, x) :: dinsert c v xs
+  | (k, x) :: xs => if c = k then (k, v) :: xs else (k, x) :: dinsert c v xs
 
-/-- `dict.update`: later values win; result sorted by key -/
+/-- `dict.update`: later values win -/
 def dupdate {α} (d e : List (Chan × α)) : List (Chan × α) := e.foldl (fun acc kv => dinsert kv.1 kv.2 acc) d
 
-def dnorm {α} (d : List (Chan × α)) : List (Chan × α) := dupdate [] d
+def sinsert {α} (c : Chan) (v : α) : List (Chan × α) → List (Chan × α)
+  | [] => [(c, v)]
+  | (k, x) :: xs => if c < k then (c, v) :: (k, x) :: xs else if c = k then (k, v) :: xs
+                    else (k, x) :: sinsert c v xs
+
+/-- sorted by key, later values win -/
+def dnorm {α} (d : List (Chan × α)) : List (Chan × α) := d.foldl (fun acc kv => sinsert kv.1 kv.2 acc) []
 
 def dkeys {α} (d : List (Chan × α)) : List Chan := d.map (·.1)
+
+/-- `d1 == d2` for Python dicts: same keys, same values, any order -/
+def dictEq (d e : List (Chan × Rat)) : Bool :=
+  d.all (fun kv => decide (e.lookup kv.1 = some kv.2)) && e.all (fun kv => decide (d.lookup kv.1 = some kv.2))
 
 /-! ## Interpolation strategies and tables -/
 
@@ -585,7 +597,10 @@ def seqConstants (ws : List Wf) : Option (List (Chan × Rat)) :=
   match ws with
   | [] => none
   | w0 :: _ => ws.foldl (fun cv w => match cv with
-      | some d => if d ≠ [] ∧ constantValueDict w ≠ some d then none else some d
+      | some d =>
+        if d ≠ [] ∧ !(match constantValueDict w with
+          | some e => dictEq d e
+          | none => false) then none else some d
       | none => none) (constantValueDict w0)
 
 /-- `SequenceWaveform.from_sequence(waveforms)` -/
@@ -643,11 +658,12 @@ def fromTransformation (inner : Wf) (tr : Trafo) : Except Err Wf :=
 def mkArith (l : Wf) (op : ArithOp) (r : Wf) : Except Err Wf :=
   if npIsclose (duration l) (duration r) then .ok (.arith l op r) else .error .assertionError
 
-/-- the merged dictionary of `from_operator` -/
+/-- the merged dictionary of `from_operator`.  The Python loop looks `ch` up in the dictionary it is
+updating; `rhs_cv` is a dict (every key once), so that is the value `lhs_cv` had. -/
 def mergeConstants (op : ArithOp) (dl dr : List (Chan × Rat)) : List (Chan × Rat) :=
-  dr.foldl (fun acc cr => match acc.lookup cr.1 with
-    | some lv => dinsert cr.1 (op.applyR lv cr.2) acc
-    | none => dinsert cr.1 (op.rhsOnlyR cr.2) acc) dl
+  dr.foldl (fun acc cr => dinsert cr.1 (match dl.lookup cr.1 with
+    | some lv => op.applyR lv cr.2
+    | none => op.rhsOnlyR cr.2) acc) dl
 
 /-- `ArithmeticWaveform.from_operator(lhs, op, rhs)` -/
 def fromOperator (l : Wf) (op : ArithOp) (r : Wf) : Except Err Wf :=
@@ -657,9 +673,9 @@ def fromOperator (l : Wf) (op : ArithOp) (r : Wf) : Except Err Wf :=
     else .error .assertionError
   | _, _ => mkArith l op r
 
-/-- `FunctorWaveform(inner, functor)` -/
+/-- `FunctorWaveform(inner, functor)`; `fs` is the (sorted) content of the `functor` mapping -/
 def mkFunctor (inner : Wf) (fs : List (Chan × Fn)) : Except Err Wf :=
-  if sameSet (dkeys fs) (channels inner) then .ok (.functor inner (dnorm fs)) else .error .assertionError
+  if sameSet (dkeys fs) (channels inner) then .ok (.functor inner fs) else .error .assertionError
 
 def applyFunctors (fs : List (Chan × Fn)) : List (Chan × Rat) → Option (List (Chan × Rat))
   | [] => some []
@@ -707,7 +723,7 @@ def fromTable (ch : Chan) (raw : List Entry) : Except Err Wf :=
 def restrictFunctors (fs : List (Chan × Fn)) : List Chan → Option (List (Chan × Fn))
   | [] => some []
   | c :: cs => match fs.lookup c, restrictFunctors fs cs with
-    | some f, some l => some (dinsert c f l)
+    | some f, some l => some (sinsert c f l)
     | _, _ => none
 
 mutual
@@ -1093,10 +1109,10 @@ def ctor (name : String) (args : List Sexp) (ts : List Rat) : Sexp :=
     | some l, some op, some r => okWf (Wf.fromOperator l op r) ts
     | _, _, _ => bad
   | "functor", [i, fs] => match Wf.ofSexp i, fnMap? fs with
-    | some i, some fs => okWf (Wf.mkFunctor i fs) ts
+    | some i, some fs => okWf (Wf.mkFunctor i (dnorm fs)) ts
     | _, _ => bad
   | "from_functor", [i, fs] => match Wf.ofSexp i, fnMap? fs with
-    | some i, some fs => okWf (Wf.fromFunctor i fs) ts
+    | some i, some fs => okWf (Wf.fromFunctor i (dnorm fs)) ts
     | _, _ => bad
   | "reversed", [i] => match Wf.ofSexp i with
     | some i => okWf (.ok (Wf.reversedM i)) ts
@@ -1195,8 +1211,8 @@ partial def evalRecipe : Sexp → Except Sexp Wf
   | .list [.atom "functor", smart, r, fs] => do
     let i ← evalRecipe r
     match nat? smart, fnMap? fs with
-    | some 0, some fs => liftE (Wf.mkFunctor i fs)
-    | some _, some fs => liftE (Wf.fromFunctor i fs)
+    | some 0, some fs => liftE (Wf.mkFunctor i (dnorm fs))
+    | some _, some fs => liftE (Wf.fromFunctor i (dnorm fs))
     | _, _ => .error bad
   | .list [.atom "reversed", mode, r] => do
     let i ← evalRecipe r
